@@ -238,3 +238,9 @@ func init() {
 	prop("C02", "C02-R5")
 	prop("C20", "C02-R5")
 }
+
+func init() {
+	prop("C07", "C07-R6")
+	prop("C09", "C07-R6")
+	prop("C01", "C07-R6") // restart itself always succeeds
+}
